@@ -128,7 +128,7 @@ TABLE = {
     r"^polled_span\|option-unwrap\|expect\|Missing ID; this is a bug\|<=Span::id$": ("by-construction", "tracing span bookkeeping"),
     r"^<stream::tcp::TcpStream as info::HasConnectionInfo>::info\|result-unwrap\|expect\|(peer|local)_addr is available for stream\|<=TcpStream::(peer|local)_addr$": ("by-construction", "getpeername/getsockname on a socket that connect() just reported as connected"),
     r"^<stream::unix::UnixStream as info::HasConnectionInfo>::info\|result-unwrap\|expect\|(peer|local)_addr is available for unix stream\|<=UnixStream::(peer|local)_addr$": ("by-construction", "address of a connected unix socket; the path is the caller's own configuration"),
-    r"^<rewind::Rewind as hyper::rt::Read>::poll_read\||^rewind::put_slice\|": ("guarded", "n = min(prefix.len(), remaining): C08.5"),
+    r"^<rewind::Rewind as hyper::rt::Read>::poll_read\|": ("guarded", "n = min(prefix.len(), remaining): C08.5"),
     r"^client::conn::stream::tls::TlsStream::new\|result-unwrap\|expect\|should be valid dns name\|<=ServerName::try_from$": ("guarded", "on the request path the domain was validated with ServerName::try_from in TlsTransportWrapper::call before any connection is made", _tls_domain_validated),
     r"^<client::conn::stream::tls::TlsStream as std::convert::From>::from\|option-unwrap\|expect\|tls connect should have stream\|<=Connect::get_ref$": ("by-construction", "tokio_rustls::Connect::get_ref() is Some for the Connect future that TlsStream::new created in the previous statement (not yet polled)"),
     r"^client::conn::stream::Stream::map\|panic": ("by-construction", "API misuse (map on a TLS stream) by the embedding program, never called by the crate on the request path"),
